@@ -71,6 +71,7 @@ def run(ctx):
     deque_cache(ctx)
     bounded_pairs(ctx)
     bounded_cache(ctx)
+    bounded_category(ctx)
     ctx.replayers['C14.'] = lambda r: dict(reproduced=None, detail='see counterexample / meta')
     ctx.replayers['C14.override.'] = replay_override
 
@@ -622,6 +623,38 @@ for p, q in zip(items, again):
 print(json.dumps(fails))
 '''
 
+def category_outcomes():
+    """building an item from an identifier through an ABSTRACT class (Parameter, Sentence, CoordsItem, LexicalAbc): the outcome is decided
+    by the identifier's class being a subclass of the class asked -- the same whether or not an item with that identifier was built before"""
+    from pytableaux.lang import lex, Parameter, Sentence, Atomic, Constant, Variable, Predicate
+    from bounded.args import roll_cache
+    abstract = [Parameter, Sentence, lex.CoordsItem, lex.LexicalAbc]
+    idents = [('Atomic', (3, 5)), ('Constant', (2, 9)), ('Variable', (1, 7)), ('Predicate', (0, 6, 2))]
+    direct = {'Atomic': lambda sp: Atomic(*sp), 'Constant': lambda sp: Constant(*sp), 'Variable': lambda sp: Variable(*sp), 'Predicate': lambda sp: Predicate(*sp)}
+    fails = []; n = 0
+    for cls in abstract:
+        for ident in idents:
+            target = getattr(lex, ident[0])
+            want = 'ok' if issubclass(target, cls) else 'TypeError'
+            got = {}
+            for state in ('cold', 'warm', 'cold-again'):
+                n += 1
+                if state.startswith('cold'): roll_cache()
+                else: direct[ident[0]](ident[1])
+                try: x = cls(ident); got[state] = 'ok' if isinstance(x, cls) else f'returned a {type(x).__name__}'
+                except TypeError: got[state] = 'TypeError'
+                except Exception as e: got[state] = type(e).__name__
+            if any(v != want for v in got.values()):
+                fails.append(dict(kind='category', cls=cls.__name__, ident=repr(ident), expected=want, outcomes=got))
+    return n, fails
+
+def bounded_category(ctx):
+    n, fails = category_outcomes()
+    ctx.bounded_part(evaluations=n, distinct_nontrivial=16, rule='abstract class x identifier of each concrete kind, with the construction cache cold, warm (the item was just built directly) and cold again: the outcome (item of the class / TypeError) is the one the class relation decides, in every cache state',
+                     bound='4 abstract classes x 4 identifiers x 3 cache states', samples=fails[:3] or [dict(cls='Parameter', ident="('Atomic', (3, 5))", expected='TypeError')], label='construction through abstract classes')
+    for f in fails[:4]:
+        ctx.bounded_failure('C14.cache.category', f"{f['cls']}({f['ident']}): expected {f['expected']} in every cache state, got {f['outcomes']}", f, instance=f"{f['cls']}/{f['ident']}")
+
 def bounded_cache(ctx):
     "B: cache transparency in subprocesses with small caches and evicting noise"
     runs = 0; fails = []
@@ -649,6 +682,9 @@ def bounded_cache(ctx):
         ctx.bounded_failure(name, f"ITEM_CACHE_SIZE={f['cache_size']} noise={f['noise']}: {f['item']} via {f['how']}: {f['error']}", f, instance=inst)
 
 def replay(payload):
+    if payload.get('kind') == 'bounded' and (payload.get('input') or {}).get('kind') == 'category':
+        n, fails = category_outcomes()
+        return dict(reproduced=bool(fails), detail=str(fails[0])[:300] if fails else 'outcomes do not depend on the cache state')
     if payload.get('kind') == 'bounded' and 'cache_size' in (payload.get('input') or {}):
         f = payload['input']
         env = dict(os.environ, ITEM_CACHE_SIZE=str(f['cache_size']), PYTHONPATH=REPO)
